@@ -427,13 +427,16 @@ def pred_case(case, stats):
                  {'run': name, 'sent': r.sent, 'start': start, 'declared_end': enc.ibound}, 'sent - start <= declared end on success')
         if enc.k is not None and enc.results is not None:
             got = enc.results(dig(r.data, ppath, {}) if ppath else r.data)
-            if got > enc.k and enc.valid:
-                fail('repeat', 'repeat:more-results-than-count:%s' % entry.group, {'run': name, 'results': got, 'k': enc.k, 'ok': r.ok}, '<= k')
             want = enc.k
-            if enc.kkey is not None:     # the count the run itself parsed (absent: 0, as dfa_base.delegate documents)
+            if enc.kkey is not None:
+                # the count as this run parsed it from E; if the run never got that far the repeated dfa did not run
+                # (dfa_base.delegate documents a missing count as 0 cycles)
                 want = dig(r.data, join(ppath, enc.kkey), 0)
-            if r.ok and isinstance(want, int) and got != want:
-                fail('repeat', 'repeat:success-with-wrong-count:%s' % entry.group, {'run': name, 'results': got, 'k': want}, 'exactly k')
+            if isinstance(want, int) and not isinstance(want, bool):
+                if got > want:
+                    fail('repeat', 'repeat:more-results-than-count:%s' % entry.group, {'run': name, 'results': got, 'k': want, 'ok': r.ok}, '<= k')
+                elif r.ok and got != want:
+                    fail('repeat', 'repeat:success-with-wrong-count:%s' % entry.group, {'run': name, 'results': got, 'k': want}, 'exactly k')
         if short and enc.k is not None and r.ok and enc.valid:
             fail('repeat', 'repeat:success-on-short-input:%s' % entry.group, {'run': name, 'sent': r.sent, 'k': enc.k, 'available': len(E_in)},
                  'no success: fewer than k units of input')
